@@ -1,6 +1,7 @@
 import QipVerif.Util.Proto
 import QipVerif.Model.Sim
 import QipVerif.Model.SimObj
+import QipVerif.Model.SimPulse
 /-! Driver for the simulator / world model (C02, C16), exact backend.
 
 Request (one line):
@@ -219,6 +220,80 @@ def shareCmd (fs : List String) : Option String := do
       | none => "?"
   pure ("ok " ++ ",".intercalate sig)
 
+/-! ### pulses held by a processor under noisy evaluation (Model/SimPulse.lean) -/
+
+def usList? (s : String) : Option (List Int) :=
+  if s = "e" then some [] else (splitNE s "_").mapM String.toInt?
+def usNats? (s : String) : Option (List Nat) :=
+  if s = "e" then some [] else (splitNE s "_").mapM String.toNat?
+def optUsNats? (s : String) : Option (Option (List Nat)) :=
+  if s = "N" then some none else (usNats? s).map some
+
+/-- `a<i>:<c>` · `r<i>` · `c<i>:<t>` · `l<i>:<t>` · `sc:<t>` · `sl:<t>` -/
+def parseAct (s : String) : Option Act :=
+  match s.splitOn ":" with
+  | ["sc", t] => (String.toInt? t).map Act.sysCoh
+  | ["sl", t] => (String.toInt? t).map Act.sysLind
+  | [h] =>
+    match h.toList with
+    | 'r' :: rest => (String.toNat? (String.ofList rest)).map Act.rand
+    | _ => none
+  | [h, t] =>
+    match h.toList, String.toInt? t with
+    | 'a' :: rest, some t => (String.toNat? (String.ofList rest)).map fun i => Act.amp i t
+    | 'c' :: rest, some t => (String.toNat? (String.ofList rest)).map fun i => Act.coh i t
+    | 'l' :: rest, some t => (String.toNat? (String.ofList rest)).map fun i => Act.lind i t
+    | _, _ => none
+  | _ => none
+
+/-- `A.<idx|N|e>.<c>` · `R.<idx|N|e>` · `X.<toks>` (relaxation) · `D.<toks>` (decoherence) · `Z.<toks>` (ZZ) ·
+`U.<act>+<act>…|e` (user) -/
+def parseNoise (s : String) : Option Noise :=
+  match s.splitOn "." with
+  | ["A", idx, c] => do pure (.amp (← optUsNats? idx) (← String.toInt? c))
+  | ["R", idx] => do pure (.random (← optUsNats? idx))
+  | ["X", t] => (usList? t).map Noise.relax
+  | ["D", t] => (usList? t).map Noise.deco
+  | ["Z", t] => (usList? t).map Noise.zz
+  | ["U", a] => if a = "e" then some (.user []) else ((splitNE a "+").mapM parseAct).map Noise.user
+  | _ => none
+
+def showUs (l : List Int) : String := if l.isEmpty then "e" else "_".intercalate (l.map toString)
+def showPVal : Option PVal → String
+  | none => "?"
+  | some v => s!"{v.ideal}:{showUs v.coh}:{showUs v.lind}"
+def showPVals (l : List (Option PVal)) : String := if l.isEmpty then "e" else "|".intercalate (l.map showPVal)
+
+/-- `pulses pcfg=<0|1><d|s|a> held=<ideal,…|N> noise=<n;n;…|N> rng=<i,…|N> calls=<0|1,…>`: a processor holding one
+pulse per entry of `held` (no noise element yet), its noise objects, a history of `get_noisy_pulses(device_noise=c)`;
+per call `ok <returned pulses>` or `err <kind>`, then ` @<the pulses the processor holds>` -/
+def pulsesCmd (fs : List String) : Option String := do
+  let pc ← fStr? fs "pcfg"
+  let cfg : PCfg ← match pc.toList with
+    | [a, b] => do
+      let k ← match b with | 'd' => some CopyKind.deep | 's' => some CopyKind.shallow | 'a' => some CopyKind.alias | _ => none
+      pure { procCopy := a == '1', noiseCopy := k }
+    | _ => none
+  let heldS ← fStr? fs "held"
+  let ideals ← if heldS = "N" then some [] else intList? heldS
+  let noiseS ← fStr? fs "noise"
+  let noise ← if noiseS = "N" then some [] else (noiseS.splitOn ";").mapM parseNoise
+  let rngS ← fStr? fs "rng"
+  let rng ← if rngS = "N" then some [] else intList? rngS
+  let calls ← fNats? fs "calls"
+  let k := ideals.length
+  let w : PWorld :=
+    { lists := ⟨List.replicate (2 * k) []⟩,
+      pulses := (List.range k).map fun i => ⟨ideals.getD i 0, 2 * i, 2 * i + 1⟩ }
+  let st0 : PState := { w := w, held := List.range k, noise := noise, rng := rng }
+  let (_, outs) := calls.foldl (fun (acc : PState × List String) c =>
+      let r := getNoisy cfg acc.1 (c != 0)
+      let o := match retVal r.1.w r.2 with
+        | .ok vs => "ok " ++ showPVals vs
+        | .error e => "err " ++ errName e
+      (r.1, acc.2 ++ [o ++ " @" ++ showPVals (pulsesVal r.1.w r.1.held)])) (st0, [])
+  pure (" ; ".intercalate outs)
+
 def parseLists (s : String) : Option (List (List Int)) :=
   if s = "N" then some [] else
     (s.splitOn ";").mapM fun l => if l = "e" then some [] else intList? l
@@ -261,6 +336,7 @@ def step (line : String) : String :=
   | some "noise" => (noiseCmd fs).getD "bad-op"
   | some "deco" => (decoCmd fs).getD "bad-op"
   | some "share" => (shareCmd fs).getD "bad-op"
+  | some "pulses" => (pulsesCmd fs).getD "bad-op"
   | some "ccv" =>
     match (fStr? fs "cs").bind optInts?, fInt? fs "v", (fStr? fs "bits").bind optInts? with
     | some (some cs), some v, some bits =>
